@@ -549,6 +549,8 @@ func (eng *Engine) runInventories(names []string) []*Obligation {
 			out = append(out, eng.inventoryNondet()...)
 		case "predefined-values":
 			out = append(out, eng.inventoryPredefined()...)
+		case "global-writes":
+			out = append(out, eng.inventoryGlobalWrites()...)
 		}
 	}
 	return out
